@@ -776,13 +776,13 @@ def _syntactic_graph(repo):
             q = None
             if isinstance(n, ast.Name) and isinstance(n.ctx, ast.Load):
                 t = repo.global_term(m, n.id)
-                q = repo.resolve(t[1])
+                q = repo.resolve(t[1]) if t[0] == 'g' else None
             elif isinstance(n, ast.Attribute) and isinstance(n.value, ast.Name):
                 if n.value.id == 'self' and fi.cls is not None:
                     q = fi.cls + '.' + n.attr
                 else:
                     t = repo.global_term(m, n.value.id)
-                    q = repo.resolve(t[1] + '.' + n.attr)
+                    q = repo.resolve(t[1] + '.' + n.attr) if t[0] == 'g' else None
             if q is None:
                 continue
             if q in repo.funcs:
